@@ -1,3 +1,42 @@
+/-
+C14 — Dependence functions are fitted within bounds, optimally, in dependency order.
+
+  "Fitting a dependence function yields parameters inside their declared bounds and satisfying
+   their declared inequality constraints, whose (weighted) squared residual is no larger than at
+   the start parameters or at any nearby admissible perturbation; for shapes linear in their
+   parameters (inactive bounds, no constraints) it is the unique linear least-squares solution.
+   A dependence function that uses other dependence functions as parameters ends up with the
+   parameters obtained by fitting it after all of those have been fitted, whatever the order in
+   which they are declared or fitted and also when a model is re-fitted, so that the result is
+   independent of that order (within optimiser tolerance)."
+
+Clause → theorem                                   (model: Model/DepProtocol.lean, Model/DepFit.lean)
+  declaration order is a dependency order           declaration_is_topological
+  the callback recursion terminates                 callbacks_terminate
+  fitted after all conditioners, ANY history        no_stale_after_any_history  (versions),
+    (any declaration order, any order/multiplicity  final_fit_after_conditioners (event log),
+     of fit calls, re-fit)                          version_eq_count_log
+  everything called ⇒ everything fitted             all_called_all_fitted
+  both together (⇒ order independence: the final    final_state_consistent
+    fits happen in a dependency-compatible order)
+  intermediate fit may see an unfitted conditioner  intermediate_fit_may_see_unfitted_conditioner (witness)
+  the `issubset` test of `callback` never fails     callback_true
+  bounds handed to curve_fit = declared bounds      convertBounds_spec, convertBounds_length
+  declared constraints reach the optimiser          constraints_reach_optimiser, unconstrained_uses_curve_fit,
+                                                    constrained_weighted_refused;
+                                                    constraints_dropped_counterexample (code before the repair)
+  linear shapes: solution of the normal equations   normal_equations_minimise, isNormalSolution_sound,
+    minimises / is unique                           normal_equations_unique, affineLsq_normal, affineLsq_minimises
+
+NOT theorems (observed on the real code by the harness on every explored case, see claims/C14.json):
+  `optimality_partial`: that curve_fit / SLSQP actually return parameters inside the bounds,
+  satisfying the constraints, with residual ≤ residual(start) and ≤ residual(nearby admissible
+  points), and that for linear shapes they return the solution of the normal equations.  Full
+  statement: ∀ shape f, data, bounds, constraints, start p0 admissible:
+     popt := fit f … ⊢ Admissible bounds popt ∧ constraints popt ≥ 0 ∧ S popt ≤ S p0 ∧
+                        ∃ ε > 0, ∀ q admissible, ‖q − popt‖ < ε → S popt ≤ S q.
+  What is missing is a model of scipy's optimisers.
+-/
 import VirVerif.Model.DepProtocol
 import VirVerif.Model.DepFit
 import Mathlib.Data.List.Basic
